@@ -30,7 +30,9 @@ RULE = (
     "() (a) (a, b='k') (*args, **kw) calling later defs, nested defs (depth<=2), named and anonymous blocks, each "
     "independently cached, with cache_key='<literal>_${arg or context var}' or the default key, own cache_* args drawn "
     "from a 3-5 name pool shared by the three levels, buffered, filter in {h, fb (non-idempotent), trim}; Template "
-    "buffer_filters; ops pick their def/key operands from the keys currently held by the model and the section table. "
+    "buffer_filters; a history renders every template once, then runs 2..20 groups (op | op+render | disable+render+"
+    "enable) cut at 30 ops; ops pick their def/key operands from the keys currently held by the model and the section "
+    "table. "
     "non-trivial = (two enabled renders of one template with different contexts around an invalidation that removed a "
     "present key) or (a cached instance created inside a cached instance being created, plus a later replay) or "
     "(>=2 templates rendered through the shared backend, plus a replay); distinct by fingerprint of (backend, URIs, "
@@ -442,7 +444,7 @@ def case_strategy(backends):
         else:
             uris = draw(st.permutations(URI_PLAIN))[:nt]
         temps = [gen_template(draw, backend, tid, uris[tid]) for tid in range(nt)]
-        # every history starts by rendering each template once (in drawn order), then 2..(30-nt) free ops
+        # every history starts by rendering each template once (in drawn order), then 2..20 op groups; <=30 ops
         first = [("render", ti, draw(ctx_st)) for ti in draw(st.permutations(range(nt)))]
         groups = draw(st.lists(op_st(nt), min_size=2, max_size=20))
         ops = (first + [o for g in groups for o in g])[:30]
